@@ -351,28 +351,6 @@ func orphanMembers(root *crdt.Object) map[string]string {
 	return out
 }
 
-// removedTextAttrs: ids of removed attribute nodes of Text nodes in a graph (their IsRemoved
-// flag is what toTextNodes does not serialise).
-func removedTextAttrs(root *crdt.Object) map[string]bool {
-	out := map[string]bool{}
-	root.Descendants(func(e crdt.Element, _ crdt.Container) bool {
-		if t, ok := e.(*crdt.Text); ok {
-			for _, n := range t.Nodes() {
-				if n.Value() == nil || n.Value().Attrs() == nil {
-					continue
-				}
-				for _, a := range n.Value().Attrs().Nodes() {
-					if a.IsRemoved() {
-						out[fmt.Sprintf("%T:%s", a, a.IDString())] = true
-					}
-				}
-			}
-		}
-		return false
-	})
-	return out
-}
-
 // ---------- the analysis ----------
 
 type snapFinding struct {
@@ -401,7 +379,6 @@ const (
 	tagStaleReg   = "c15-garbage-registration-of-restored-element"
 	tagRestored   = "c15-restored-instance-shadowed-in-createdat-table"
 	tagRHT        = "c02-rht-lww-replay-on-decode"
-	tagTextAttr   = "c02-text-attr-removed"
 	tagPairToggle = "c09-gc-pair-registered-twice-is-dropped"
 	// consequences of undo/redo restoring something under its old identity
 	tagRestoredInner = "c15-tombstones-inside-restored-element-not-registered"
@@ -549,13 +526,8 @@ func (h *fuzzHist) analyseSnapshot(live *crdt.Root, obj *crdt.Object, pa, pb *ap
 		if _, ok := D.pairs[k]; ok {
 			continue
 		}
-		if G.attrOf[k] == "text" {
-			// removed attribute of a text node: toTextNodes does not serialise IsRemoved
-			rep.add(tagTextAttr, "removed-text-attribute-lost:"+k)
-			lostIDs[id] = true
-		} else {
-			rep.add("", "pair-lost-by-decode:"+k)
-		}
+		_ = id
+		rep.add("", "pair-lost-by-decode:"+k)
 	}
 	for k := range D.pairs {
 		if _, ok := G.pairs[k]; !ok {
@@ -692,10 +664,6 @@ func (h *fuzzHist) explainMarshal(rep *snapReport, live *crdt.Root, m1, m2 strin
 		f   func(string) (string, bool)
 	}
 	var norms []norm
-	// (a) removed text attributes come back: strip "attrs" of text nodes
-	if len(removedTextAttrs(live.Object())) > 0 {
-		norms = append(norms, norm{tagTextAttr, func(s string) (string, bool) { return reAttrs.ReplaceAllString(s, ""), true }})
-	}
 	// (b) an untombstoned loser becomes the occupant: delete the keys that have such a member
 	if orph := orphanMembers(live.Object()); len(orph) > 0 {
 		ks := map[string]bool{}
@@ -928,4 +896,64 @@ func staleRegistrations(r *crdt.Root) []string {
 	}
 	sort.Strings(out)
 	return out
+}
+
+// mergeTextNodesJSON: see mergeTextNodes.
+func mergeTextNodesJSON(s string) (string, bool) {
+	for _, t := range []string{"+Inf", "-Inf", "NaN"} {
+		s = strings.ReplaceAll(s, ":"+t, `:"`+t+`"`)
+		s = strings.ReplaceAll(s, ","+t, `,"`+t+`"`)
+		s = strings.ReplaceAll(s, "["+t, `["`+t+`"`)
+	}
+	dec := json.NewDecoder(strings.NewReader(s))
+	dec.UseNumber()
+	var v any
+	if err := dec.Decode(&v); err != nil {
+		return "", false
+	}
+	var walk func(x any) any
+	walk = func(x any) any {
+		switch t := x.(type) {
+		case map[string]any:
+			for k := range t {
+				t[k] = walk(t[k])
+			}
+			return t
+		case []any:
+			isText := len(t) > 0
+			for i := range t {
+				t[i] = walk(t[i])
+				m, ok := t[i].(map[string]any)
+				if !ok {
+					isText = false
+					continue
+				}
+				if _, ok := m["val"].(string); !ok || len(m) > 2 {
+					isText = false
+				}
+			}
+			if !isText {
+				return t
+			}
+			var out []any
+			for _, e := range t {
+				m := e.(map[string]any)
+				if n := len(out); n > 0 {
+					prev := out[n-1].(map[string]any)
+					if reflect.DeepEqual(prev["attrs"], m["attrs"]) {
+						prev["val"] = prev["val"].(string) + m["val"].(string)
+						continue
+					}
+				}
+				out = append(out, m)
+			}
+			return out
+		}
+		return x
+	}
+	b, err := json.Marshal(walk(v))
+	if err != nil {
+		return "", false
+	}
+	return string(b), true
 }
